@@ -18,9 +18,10 @@ EXOTIC = ["a.b", "x y", "A/B", "9", "END", "KILL", "MY_LOOP", "LOOPY",
 
 class _G:
     def __init__(self, draw, max_events, exotic, allow_loops, allow_kill,
-                 two_breaks=True, empty_break=False):
+                 two_breaks=True, empty_break=False, adjacent=False):
         self.two_breaks = two_breaks
         self.empty_break = empty_break
+        self.adjacent = adjacent
         self.draw = draw
         self.n = 0
         self.max_events = max_events
@@ -107,10 +108,11 @@ class _G:
                 branches = [Seq((Break(),)) if b is brk else b
                             for b in branches]
             x = Fork("XOR", tuple(branches))
-            body = (body
-                    + ([Ev(self.name())]
-                       if isinstance(body[-1], (Fork, Loop)) else [])
-                    + [x])
+            sep = isinstance(body[-1], (Fork, Loop))
+            if sep and self.adjacent and isinstance(body[-1], Loop) \
+                    and self.chance(5):
+                sep = False      # inner loop directly in front of the switch
+            body = body + ([Ev(self.name())] if sep else []) + [x]
             if self.chance(5):
                 body = body + [Ev(self.name())]
         return Loop(Seq(tuple(body)))
@@ -119,12 +121,12 @@ class _G:
 @st.composite
 def definitions(draw, max_events=None, loops=True, loops_required=False,
                 multi_start=None, exotic=None, kill=True, two_breaks=True,
-                empty_break=None):
+                empty_break=None, adjacent=False):
     me = max_events or draw(st.integers(4, 16))
     ex = draw(st.integers(0, 9)) < 2 if exotic is None else exotic
     ms = (draw(st.integers(0, 9)) < 1) if multi_start is None else multi_start
     eb = (draw(st.integers(0, 9)) < 3) if empty_break is None else empty_break
-    g = _G(draw, me, ex, loops, kill, two_breaks, eb)
+    g = _G(draw, me, ex, loops, kill, two_breaks, eb, adjacent)
     items = g.seq(0, False, first_block=ms)
     ast = Seq(tuple(items))
     if loops_required and not any(isinstance(n, Loop) for n in ps.walk(ast)):
@@ -167,6 +169,9 @@ def features(ast) -> tuple:
                     f.add("loopbody_ends_fork_" + body[-1].kind)
                 if isinstance(body[0], Fork):
                     f.add("loopbody_starts_fork")
+                if any(isinstance(a, Loop) and isinstance(b, Fork)
+                       for a, b in zip(body, body[1:])):
+                    f.add("loop_directly_before_fork")
                 if len(body) == 1 and isinstance(body[0], Ev):
                     f.add("self_loop")
                 if any(isinstance(x, Fork) for x in body):
